@@ -22,6 +22,7 @@ const BridgeModuleID = 3
 
 // BridgeEnv is a chain with staking validators, an oracle whitelist and an oracle admin.
 type BridgeEnv struct {
+	Genesis ethbridgetypes.GenesisState // the ethbridge genesis the chain was started from
 	*chain.Chain
 	Admin      chain.Account // holds all admin roles
 	OracleAdm  chain.Account
@@ -74,6 +75,9 @@ func SymbolName(id int64) string {
 
 // NewBridge builds the environment; powers[i] > 0 creates validator i with that consensus power,
 // whitelisted[i] puts it on the oracle whitelist at genesis.
+// BridgeGenesisTweak, when set, edits the ethbridge genesis of the next environments (pause flag, blacklist, token list).
+var BridgeGenesisTweak func(*ethbridgetypes.GenesisState)
+
 func NewBridge(powers []int64, whitelisted []bool, nUsers int) *BridgeEnv {
 	e := &BridgeEnv{AcctID: map[string]int64{}, AcctOf: map[int64]string{}, ValID: map[string]int64{}, ContentID: map[string]int64{},
 		Contents: map[int64]Content{}, ProphecyID: map[string]int64{}, EthAddrID: map[string]int64{}, Powers: powers}
@@ -105,6 +109,10 @@ func NewBridge(powers []int64, whitelisted []bool, nUsers int) *BridgeEnv {
 		var eg ethbridgetypes.GenesisState
 		app.AppCodec().MustUnmarshalJSON(gs[ethbridgetypes.ModuleName], &eg)
 		eg.PeggyTokens = []string{"ceth", "cusdc"}
+		if BridgeGenesisTweak != nil {
+			BridgeGenesisTweak(&eg)
+		}
+		e.Genesis = eg
 		gs[ethbridgetypes.ModuleName] = app.AppCodec().MustMarshalJSON(&eg)
 		return gs
 	}
